@@ -1,9 +1,9 @@
-SPECIFICATION CheckedSpec
+SPECIFICATION ASpec
 CONSTANTS
   NH = 2
   MaxBlocks = 1
-  MaxSteps = 4
-  Bases <- BaseAll
+  MaxSteps = 5
+  Bases <- Base1
   Layouts <- LaySmall
   Counts <- HostCounts
   Lens <- HostLens
@@ -13,7 +13,6 @@ CONSTANTS
   MalClasses <- MalNone
   GuardFit = TRUE
   Huge = 99
-  EmitOn = FALSE
-VIEW view
-INVARIANTS TypeOK Alive PostedComplete ExactRebuild
+  EmitOn = TRUE
+INVARIANT Export
 CHECK_DEADLOCK FALSE
